@@ -107,7 +107,8 @@ class World:
         self.conns: t.List[net.Conn] = []
         self.deliveries: t.List[t.Optional[dict]] = []  # delivery spec per connection index (None = whole)
         self.default_delivery: t.Optional[dict] = None
-        self.tampers: t.Dict[int, t.Callable] = {}  # connection index -> tamper callable
+        self.tampers: t.Dict[int, t.Callable] = {}  # connection index -> tamper callable (reply path)
+        self.tx_tampers: t.Dict[int, t.Callable] = {}  # connection index -> tamper callable (request path)
         self.refuse: t.Set[t.Tuple[str, int]] = set()
         self.partitioned = False
         self.connect_attempts: t.List[t.Tuple[str, int]] = []
@@ -156,6 +157,7 @@ class World:
         idx, spec = self._conn_spec()
         conn = net.SimSocket(self, idx, host, port, peer, spec)
         conn.tamper = self.tampers.get(idx)
+        conn.tx_tamper = self.tx_tampers.get(idx)
         self.conns.append(conn)
         peer.on_connect(conn)
         return conn
